@@ -14,7 +14,7 @@ SPEC = {
     "harness_args": {"quick": ["-tier", "quick"], "thorough": ["-tier", "thorough"]},
     "timeout": {"quick": 600, "thorough": 2400},
     "level": "proof",
-    "tie": "T3: real in-process nodes (NewNode+Serve on loopback ports, child processes for kills) and the Lean model are run on the same scenario lines - who holds which record / shard file (by content digest) after every interrupted and every failure-free round, Sync results, chunk sequences seen at the sender, replies of RPCSendShard to hand-made chunk sequences; histories over several server lists (interrupted change, roll-back without draining, client writes through the real cluster API declared to the model as writes at the routing owner, list applied again / random walks): the predicate Safe of every list change and the write precondition are evaluated on the real disks with the real RendezvousHash and by the model, and compared; T2: tools/facts_c14 regenerates CHUNKSIZE, the receiver's open flags (O_TRUNC only at chunk 0), MkdirAll only at chunk 0, the checksum condition, the order send -> compare -> delete of both phases, the receive loop of RPCSetNodeKeyValue (every pair is put unconditionally and counted) and the routing keys from the working tree; C14_converges_repo is proved for the generated configuration",
+    "tie": "T3: real in-process nodes (NewNode+Serve on loopback ports, child processes for kills) and the Lean model are run on the same scenario lines - who holds which record / shard file (by content digest) after every interrupted and every failure-free round, Sync results, chunk sequences seen at the sender, replies of RPCSendShard to hand-made chunk sequences; histories over several server lists (interrupted change, roll-back without draining, client writes through the real cluster API declared to the model as writes at the routing owner, list applied again / random walks): the predicate Safe of every list change and the write precondition are evaluated on the real disks with the real RendezvousHash and by the model, and compared; CONCURRENT rounds: about 7 of 12 failure-free rounds (and every one of the scenarios with several senders of multi-chunk shard files) start all nodes first and let them call Sync at the same moment - goroutines of the harness process with a small seeded jitter at every chunk, or one child process per node as at a real start-up - and the op line `csync` is answered by the model from the SPECIFICATION of C14_converges_concurrent / C14_epochs_converges_concurrent (every current record / shard file at its routing owner and on no other started node, no Sync failed: `placedSpec`), whatever the real interleaving was; the following dump compares file trees and node databases with that prediction; in addition the driver executes the concurrent program of Concurrent.lean (`cstepT`) under a pseudo-random schedule taken from the line and reports if that run fails, does not finish, or ends in a state other than the specified one; T2: tools/facts_c14 regenerates CHUNKSIZE, the receiver's open flags (O_TRUNC only at chunk 0), MkdirAll only at chunk 0, the checksum condition, the order send -> compare -> delete of both phases, the receive loop of RPCSetNodeKeyValue (every pair is put unconditionally and counted) and the routing keys from the working tree; C14_converges_repo is proved for the generated configuration",
     "required_theorems": [
         "Sema.C14.C14_chunks", "Sema.C14.C14_no_loss", "Sema.C14.C14_remove_only_after_confirm",
         "Sema.C14.C14_converges", "Sema.C14.C14_converges_repo",
@@ -22,11 +22,17 @@ SPEC = {
         "Sema.C14.C14_empty_file_never_moves",
         "Sema.C14.C14_epochs_no_loss", "Sema.C14.C14_epochs_remove_only_after_confirm",
         "Sema.C14.C14_epochs_converges", "Sema.C14.C14_epochs_safe_change",
+        "Sema.C14.C14_converges_concurrent", "Sema.C14.C14_converges_concurrent_repo",
+        "Sema.C14.C14_converges_concurrent_maximal", "Sema.C14.C14_epochs_converges_concurrent",
+        "Sema.C14.C14_concurrent_never_blocks", "Sema.C14.C14_concurrent_terminates",
+        "Sema.C14.C14_readable_through_any_node", "Sema.C14.C14_readable_after_round",
+        "Sema.C14.C14_sender_emits_messages", "Sema.C14.C14_concurrent_sends_messages",
     ],
     "trusted_base": [
         "OS file semantics: a file is a byte list; O_APPEND|O_CREATE appends / creates, O_TRUNC empties; os.File.Read returns (n>0, nil) until the end and then (0, io.EOF); RemoveAll removes the shard directory; writes of a killed process that returned are on disk",
         "net/rpc + cluster/mrpc: a call is executed once and answered, or the caller gets an error (a time-out retry of internalRoute that duplicates a chunk is outside the model: it can only make a checksum mismatch, never a loss)",
-        "bbolt: RPCSetNodeKeyValue / the local delete are atomic write transactions",
+        "bbolt: RPCSetNodeKeyValue / the local delete are atomic write transactions; the read transaction at the start of phase 1 is a consistent snapshot",
+        "granularity of the concurrent model (Concurrent.lean): the receiver's handling of ONE rpc is atomic (a bbolt write transaction; open-append-write-close of one chunk of a file that only ONE sender writes: Inv.f4 / Safe.fc - with two senders of the same shard the handler is not atomic and the real code fails, see assumptions), one local transaction of the sender is atomic, every gap between two calls of a goroutine and between the main goroutine's actions is a scheduling point; filepath.Walk is one step (what it selects - shards the node holds and does not own - is changed by no other node: step_priv); a node that failed keeps answering as a receiver in the model (irrelevant for failure-free runs); every started node serves before any Sync contacts it (otherwise the rpc fails: that is the fault `down`)",
         "FileHash (xxhash64) is collision-free on the files involved and FileHash of the empty file is not 0 (hypothesis SumOK of every theorem; the second half is checked on every run)",
         "routing is an arbitrary function key -> node in the theorems (C13 is about RendezvousHash); the harness supplies the real RendezvousHash owner per key",
         "no client traffic during the synchronisation (sync.go says so): client writes happen while no started node other than the owner holds the key (QuietR / QuietF; established by every failure-free round, C14_epochs_converges); every started node runs with the same server list",
@@ -34,6 +40,7 @@ SPEC = {
         "Content symbols of the executable comparison: bytes for records and hand-made chunks, 4 KiB pages (FNV-1a) for shard files, CHUNKSIZE = 2048 pages",
     ],
     "assumptions": [
+        "concurrent rounds: at most one started node other than the routing owner holds a given shard file (Inv.f4; in histories part of Safe: Safe.fc). Within the property's quantifier (one change of the list, faults anywhere) this always holds. With two such holders - possible only if the list changes AGAIN before an interrupted move was completed - the real code does NOT converge when both start at once: the two senders' chunks interleave in the owner's file (multi-chunk shards: always; single-chunk shards: when the two chunk-0 handlers overlap), both get `checksum mismatch`, both Syncs fail, nothing is lost (go/cmd/c14 -dupshard; Props.lean example dSchedMix; notes/C14.md round 4)",
         "shard files are non-empty (bbolt files are): an empty sharddb.bbolt can never be moved (C14_empty_file_never_moves)",
         "before the first change every record / shard is on exactly one node (Init / WInit)",
         "a record of a DELETED collection that an out-of-date node brings back is not judged (the property speaks about the records that exist)",
